@@ -605,19 +605,28 @@ func (c *Client) submitPersisted(packet net.Buffers, out outbound) (exchange <-c
 
 	// submit
 	if hasBacklog {
-		// buffered channel won't block
-		done <- fmt.Errorf("%w; PUBLISH enqueued", ErrDown)
+		sendExchangeErr(done, fmt.Errorf("%w; PUBLISH enqueued", ErrDown))
 	} else {
 		err = c.writeBuffersNoWait(packet)
 		if err != nil {
-			// buffered channel won't block
-			done <- fmt.Errorf("%w; PUBLISH enqueued", err)
+			sendExchangeErr(done, fmt.Errorf("%w; PUBLISH enqueued", err))
 		} else {
 			seq.submitN = seq.acceptN
 		}
 	}
 
 	return done, nil
+}
+
+// SendExchangeErr reports a submission error. The buffered channel won't
+// block. Packet identifiers are predictable. A broker which acknowledges a
+// PUBLISH before it was written in full gets the exchange closed already,
+// in which case the error has become irrelevant.
+func sendExchangeErr(done chan<- error, err error) {
+	defer func() {
+		recover() // closed by acknowledgement
+	}()
+	done <- err
 }
 
 func (c *Client) applySeqNoAndEnqueue(packet net.Buffers, seqNo uint, out outbound) (done chan error, err error) {
